@@ -1253,6 +1253,13 @@ class Frame:
         v = ref.get()
         if isinstance(v, Uninit):
             return
+        # a user model of the drop glue itself (`std::ptr::drop_in_place::<T>`) takes precedence over the glue's body
+        for rx, fn in ex.user_models:
+            if rx.fullmatch(info['name']):
+                r = fn(ex, info['name'], [ref])
+                if r is not NotImplemented:
+                    ex.stats.models[rx.pattern] = ex.stats.models.get(rx.pattern, 0) + 1
+                    return
         ex.call_key(info['key'], [ref], info['name'])
 
 
